@@ -275,7 +275,7 @@ WriteOK == open /\ mode \in {"RW", "WO"}
 Write(s0, n, v) ==
     /\ Called("Write", [s0 |-> s0, n |-> n, v |-> v])
     /\ n > 0 /\ s0 >= 0 /\ s0 + n <= size * SPB
-    /\ IF ~WriteOK /\ "writeInAnyMode" \notin Bug THEN Refuse
+    /\ IF ~open \/ (~WriteOK /\ "writeInAnyMode" \notin Bug) THEN Refuse
        ELSE
         LET T   == Len(chain)
             B   == Touched(s0, n)
@@ -715,9 +715,13 @@ ReplaceDisk(t, src) ==
             /\ ref' = ImageAt(ch2, d2, Len(ch2))
             /\ usnap' = UserImages(ch2, d2)
             /\ cleaner' = [st |-> "idle", name |-> ""]
+            \* the block map is only shifted as for a removal (entries of the source move to its
+            \* parent) although the data went to the target: what the engine reads is the caller's
+            \* responsibility until the next load -- data invariants are suspended like after a sync
+            /\ stale' = TRUE
             /\ res' = "ok" /\ out' = <<>>
             /\ UNCHANGED <<headN, size, open, mode, rebuilding, dirty, rev, checkpoint,
-                           punch, preload, lm, stale>>
+                           punch, preload, lm>>
 
 -----------------------------------------------------------------------------
 (* Invariants *)
